@@ -158,3 +158,97 @@ fn c01_polyn<const N: usize>() {
 #[kani::proof] #[kani::unwind(15)] fn c01_polyn_8() { c01_polyn::<8>() }
 #[kani::proof] #[kani::unwind(15)] fn c01_polyn_10() { c01_polyn::<10>() }
 #[kani::proof] #[kani::unwind(15)] fn c01_polyn_12() { c01_polyn::<12>() }
+
+// ------------------------------------------------------------------------------------------- C17: approximate equality
+// abs_diff_eq / relative_eq of a polynomial hold exactly when they hold for every pair of corresponding coefficients.
+// Numbers: integer-valued doubles in [-100,100]; tolerances from a concrete set (products need a concrete factor).
+const TOLS: [f64; 2] = [0.0, 1.0];
+/// (epsilon, max_relative) pairs: distinct so that swapped tolerances are visible
+const RELS: [(f64, f64); 2] = [(0.0, 0.5), (1.0, 0.0)];
+/// integer-valued doubles in [-8, 8] for the approx harnesses (float comparisons against products are costly in CBMC)
+fn tiny_any() -> f64 { let v: i8 = kani::any(); kani::assume(v >= -8 && v <= 8); v as f64 }
+macro_rules! c17_arr {
+    ($name:ident, $t:ident, $n:expr) => {
+        #[kani::proof]
+        #[kani::unwind(12)]
+        fn $name() {
+            let mut a = [0.0f64; $n];
+            let mut b = [0.0f64; $n];
+            let mut i = 0;
+            while i < $n { a[i] = tiny_any(); b[i] = tiny_any(); i += 1; }
+            let (pa, pb) = ($t(a), $t(b));
+            let mut ei = 0;
+            while ei < TOLS.len() {
+                let eps = TOLS[ei];
+                let mut want = true;
+                let mut i = 0;
+                while i < $n { want = want && a[i].abs_diff_eq(&b[i], eps); i += 1; }
+                assert!(pa.abs_diff_eq(&pb, eps) == want, "[spec] abs_diff_eq holds exactly when it holds for every pair of coefficients");
+                ei += 1;
+            }
+            let mut ri = 0;
+            while ri < RELS.len() {
+                let (eps, mr) = RELS[ri];
+                let mut wantr = true;
+                let mut i = 0;
+                while i < $n { wantr = wantr && a[i].relative_eq(&b[i], eps, mr); i += 1; }
+                assert!(pa.relative_eq(&pb, eps, mr) == wantr, "[spec] relative_eq holds exactly when it holds for every pair of coefficients");
+                ri += 1;
+            }
+            kani::cover!(true, "[cover] reachable");
+        }
+    };
+}
+c17_arr!(c17_poly1, Poly1, 2);
+c17_arr!(c17_poly2, Poly2, 3);
+c17_arr!(c17_poly3, Poly3, 4);
+c17_arr!(c17_poly4, Poly4, 5);
+c17_arr!(c17_poly5, Poly5, 6);
+c17_arr!(c17_poly6, Poly6, 7);
+c17_arr!(c17_poly7, Poly7, 8);
+c17_arr!(c17_poly8, Poly8, 9);
+#[kani::proof]
+#[kani::unwind(12)]
+fn c17_poly0() {
+    let (a, b) = (tiny_any(), tiny_any());
+    let mut ei = 0;
+    while ei < TOLS.len() {
+        let eps = TOLS[ei];
+        assert!(Poly0(a).abs_diff_eq(&Poly0(b), eps) == a.abs_diff_eq(&b, eps), "[spec] abs_diff_eq is number-by-number");
+        ei += 1;
+    }
+    let mut ri = 0;
+    while ri < RELS.len() {
+        let (eps, mr) = RELS[ri];
+        assert!(Poly0(a).relative_eq(&Poly0(b), eps, mr) == a.relative_eq(&b, eps, mr), "[spec] relative_eq is number-by-number");
+        ri += 1;
+    }
+    kani::cover!(true, "[cover] reachable");
+}
+fn c17_polyn<const N: usize, const M: usize>() {
+    let mut a = [0.0f64; N];
+    let mut b = [0.0f64; M];
+    let mut i = 0;
+    while i < N { a[i] = tiny_any(); i += 1; }
+    let mut i = 0;
+    while i < M { b[i] = tiny_any(); i += 1; }
+    let (pa, pb) = (PolyN(a.to_vec()), PolyN(b.to_vec()));
+    let mut ei = 0;
+    while ei < TOLS.len() {
+        let eps = TOLS[ei];
+        let mut want = N == M;
+        let mut i = 0;
+        while i < N && i < M { want = want && a[i].abs_diff_eq(&b[i], eps); i += 1; }
+        assert!(pa.abs_diff_eq(&pb, eps) == want, "[spec] PolyN: equal lengths and every pair of coefficients");
+        let mut wantr = N == M;
+        let mut i = 0;
+        while i < N && i < M { wantr = wantr && a[i].relative_eq(&b[i], eps, 0.5); i += 1; }
+        assert!(pa.relative_eq(&pb, eps, 0.5) == wantr, "[spec] PolyN relative_eq: equal lengths and every pair of coefficients");
+        ei += 1;
+    }
+    kani::cover!(true, "[cover] reachable");
+}
+#[kani::proof] #[kani::unwind(8)] fn c17_polyn_2_2() { c17_polyn::<2, 2>() }
+#[kani::proof] #[kani::unwind(8)] fn c17_polyn_2_3() { c17_polyn::<2, 3>() }
+#[kani::proof] #[kani::unwind(8)] fn c17_polyn_0_1() { c17_polyn::<0, 1>() }
+#[kani::proof] #[kani::unwind(8)] fn c17_polyn_0_0() { c17_polyn::<0, 0>() }
